@@ -1,14 +1,13 @@
 (* Operation histories on a repeated field: the layout invariant holds after every operation, every
    successful step is framed, every refused step leaves the state unchanged. *)
-From AB Require Import Prelude PySeq RepeatedLib Repeated Fields RepeatedProofs RepeatedLayout RepeatedInsert RepeatedCells RepeatedSep RepeatedOps RepeatedSlices.
+From AB Require Import Prelude PySeq RepeatedLib Repeated Fields RepeatedProofs RepeatedLayout RepeatedInsert RepeatedCells RepeatedSep RepeatedOps RepeatedSlices RepeatedDrop RepeatedExt.
 From Coq Require Import ZifyBool Permutation.
 
 Inductive rop :=
 | RInsert (i : Z) (v : donor) (fr : Z) | RAppend (v : donor) (fr : Z) | RExtend (vs : list donor) (fr : Z)
 | RSetInt (i : Z) (v : donor) (fr : Z) | RSetSlice (sl : slc) (vs : list donor) (fr : Z)
-| RDel (ix : pyidx) (fr : Z) | RPop (i : Z) | RClear.
+| RDel (ix : pyidx) (fr : Z) | RPop (i : Z) | RClear | RDropMany (l : list Z).
 
-Definition step1 (sl : slc) : Prop := sl_step sl = None \/ sl_step sl = Some 1.
 
 (* the values are new to the document (non-empty, fresh ids); says nothing about being free *)
 Definition args_fresh (fr : Z) (d : doc) (vs : list donor) : Prop :=
@@ -47,13 +46,14 @@ Hypothesis Hsepsb : seps_ok sepsb.
 
 Definition LayS (s : st) : Prop := Layout ph (s_doc s) (s_items s).
 
-(* s' is s with one contiguous run of items replaced: same prefix, placeholder, suffix; items before
-   are literally the same cells, items after keep their tokens; separation is kept *)
+(* s' is s after a chain of edits, each replacing one contiguous run of items: same prefix, placeholder,
+   suffix; in each edit the items before are literally the same cells and the items after keep their
+   tokens; separation is kept.  (One edit for every mutator except extended slices / drop_many.) *)
 Definition FrameS (s s' : st) : Prop :=
   exists pre pht cs cs' post M news,
     s = mkst (lay pre pht cs post) (map item_of cs) /\ WF ph pre pht cs post /\
     s' = mkst (lay pre pht cs' post) (map item_of cs') /\ WF ph pre pht cs' post /\
-    Edit cs cs' M news /\ (Sep seps sepsb cs -> Sep seps sepsb cs').
+    Edits cs cs' M news /\ (Sep seps sepsb cs -> Sep seps sepsb cs').
 
 Definition run_op (s : st) (o : rop) : st * res unit :=
   match o with
@@ -65,6 +65,7 @@ Definition run_op (s : st) (o : rop) : st * res unit :=
   | RDel ix fr => let '(s', _, r) := delitem ph seps sepsb s ix fr in (s', r)
   | RPop i => let '(s', _, r) := pop ph s i in (s', match r with Ok _ => Ok tt | Err e => Err e end)
   | RClear => let '(s', _, r) := clear ph s in (s', r)
+  | RDropMany l => let '(s', _, r) := drop_many ph s l in (s', r)
   end.
 
 (* arguments well-formed (what the API guarantees for any call): fresh values, step-1 slices *)
@@ -72,8 +73,9 @@ Definition op_fresh (s : st) (o : rop) : Prop :=
   match o with
   | RInsert _ v fr | RAppend v fr | RSetInt _ v fr => args_fresh fr (s_doc s) [v]
   | RExtend vs fr => args_fresh fr (s_doc s) vs
-  | RSetSlice sl vs fr => args_fresh fr (s_doc s) vs /\ step1 sl
-  | RDel ix fr => (forall x, In x (ids (s_doc s)) -> x < fr) /\ match ix with IInt _ => True | ISlice sl => step1 sl end
+  | RSetSlice sl vs fr => args_fresh fr (s_doc s) vs
+  | RDel ix fr => forall x, In x (ids (s_doc s)) -> x < fr
+  | RDropMany l => NoDup l /\ (forall y, In y l -> 0 <= y < zlen (s_items s))
   | RPop _ | RClear => True
   end.
 (* ... and free values, each offered once *)
@@ -88,25 +90,30 @@ Definition op_ok (s : st) (o : rop) : Prop :=
 Lemma one_detachable : forall v, detachable v = true -> forallb detachable [v] = true.
 Proof. intros v H. cbn. now rewrite H. Qed.
 
-Lemma del_index_step1 : forall ix n r, match ix with IInt _ => True | ISlice sl => step1 sl end ->
-  range_from_index ix n = Ok r -> r_step r = 1.
+Lemma slice_step1 : forall n sl a b, slice_indices n sl = Ok (a, b, 1) -> sl_step sl = None \/ sl_step sl = Some 1.
 Proof.
-  intros [i|sl] n r Hs H; cbn in H.
-  - destruct (norm_index n i); inversion H; reflexivity.
-  - unfold range_getslice, slice_indices in H. destruct Hs as [E|E]; rewrite E in H; cbn in H; inversion H; reflexivity.
+  intros n sl a b H. unfold slice_indices in H. destruct (sl_step sl) as [k|]; [|now left].
+  destruct (k =? 0); [discriminate|]. inversion H. now right.
 Qed.
+
+Lemma edits_one_wf : forall pre pht cs cs' post M N, WF ph pre pht cs' post -> Edit cs cs' M N -> Edits cs cs' M N.
+Proof. intros pre pht cs cs' post M N Hw He. apply Edits_one; [apply Hw|exact He]. Qed.
 
 Theorem step_ok : forall s o s', LayS s -> op_ok s o -> run_op s o = (s', Ok tt) -> LayS s' /\ FrameS s s'.
 Proof.
   intros [d items] o s' (pre & pht & cs & post & Ed & Ei & Hwf) [Hf Hk] H. cbn [s_doc s_items] in *. subst d items.
-  assert (Fin : forall cs' M news, s' = mkst (lay pre pht cs' post) (map item_of cs') -> WF ph pre pht cs' post ->
-                 Edit cs cs' M news -> (Sep seps sepsb cs -> Sep seps sepsb cs') ->
+  assert (FinC : forall cs' M news, s' = mkst (lay pre pht cs' post) (map item_of cs') -> WF ph pre pht cs' post ->
+                 Edits cs cs' M news -> (Sep seps sepsb cs -> Sep seps sepsb cs') ->
                  LayS s' /\ FrameS (mkst (lay pre pht cs post) (map item_of cs)) s').
   { intros cs' M news -> Hw He Hs. split.
     - exists pre, pht, cs', post. split; [reflexivity|split; [reflexivity|exact Hw]].
     - exists pre, pht, cs, cs', post, M, news. split; [reflexivity|]. split; [exact Hwf|]. split; [reflexivity|].
       split; [exact Hw|]. split; [exact He|exact Hs]. }
-  destruct o as [i v fr|v fr|vs fr|i v fr|sl vs fr|ix fr|i|]; cbn [run_op op_fresh op_ok] in *.
+  assert (Fin : forall cs' M news, s' = mkst (lay pre pht cs' post) (map item_of cs') -> WF ph pre pht cs' post ->
+                 Edit cs cs' M news -> (Sep seps sepsb cs -> Sep seps sepsb cs') ->
+                 LayS s' /\ FrameS (mkst (lay pre pht cs post) (map item_of cs)) s').
+  { intros cs' M news E Hw He Hs. eapply FinC; [exact E|exact Hw|eapply edits_one_wf; eassumption|exact Hs]. }
+  destruct o as [i v fr|v fr|vs fr|i v fr|sl vs fr|ix fr|i| |l]; cbn [run_op op_fresh op_ok] in *.
   - destruct (insert_layout ph seps sepsb Hseps Hsepsb pre pht cs post i v fr Hwf) as (cs' & E & Hw & He & _ & Hs).
     { apply donors_ok_of_fresh; [exact Hf|now apply one_detachable]. }
     rewrite E in H. injection H as Hs'. eapply Fin; [symmetry; exact Hs'|exact Hw|exact He|exact Hs].
@@ -122,15 +129,34 @@ Proof.
     destruct (setitem_int_layout ph pre pht cs post i v fr s' dl Hwf) as (A & c & B & -> & _ & _ & Es & Hw & He); [|exact E|].
     { apply donors_ok_of_fresh; [exact Hf|now apply one_detachable]. }
     eapply Fin; [exact Es|exact Hw|exact He|apply Sep_set].
-  - destruct Hf as [Hf Hst]. destruct Hk as [Hd Hn].
-    destruct (setslice_layout ph seps sepsb Hseps Hsepsb pre pht cs post sl vs fr Hwf) as (A & M & B & cs' & _ & E & Hw & He & _ & Hs);
-      [now apply donors_ok_of_fresh|exact Hn|exact Hst|].
-    rewrite E in H. injection H as Hs'. eapply Fin; [symmetry; exact Hs'|exact Hw|exact He|exact Hs].
-  - destruct Hf as [Hb Hst].
-    destruct (range_from_index ix (zlen cs)) as [r|e] eqn:Er.
-    + destruct (delitem_layout ph seps sepsb Hseps Hsepsb pre pht cs post ix fr r Hwf Hb Er) as (A & M & B & cs' & _ & E & Hw & He & _ & Hs).
-      { eapply del_index_step1; eassumption. }
-      rewrite E in H. injection H as Hs'. eapply Fin; [symmetry; exact Hs'|exact Hw|exact He|exact Hs].
+  - destruct Hk as [Hd Hn].
+    pose proof (donors_ok_of_fresh _ _ _ Hf Hd) as Hdon.
+    destruct (slice_indices (zlen cs) sl) as [[[a b] k]|e] eqn:Esl.
+    + destruct (Z.eq_dec k 1) as [->|Hk1].
+      * destruct (setslice_layout ph seps sepsb Hseps Hsepsb pre pht cs post sl vs fr Hwf Hdon Hn) as (A & M & B & cs' & _ & E & Hw & He & _ & Hs);
+          [eapply slice_step1; exact Esl|].
+        rewrite E in H. injection H as Hs'. eapply Fin; [symmetry; exact Hs'|exact Hw|exact He|exact Hs].
+      * destruct (range_len (mkrng a b k) =? zlen vs) eqn:Erl.
+        -- destruct (setslice_ext_layout ph seps sepsb Hseps Hsepsb pre pht cs post sl vs fr a b k Hwf Hdon Hn Esl Hk1) as (cs' & M & dl & E & Hw & He & Hs);
+             [lia|].
+           rewrite E in H. injection H as Hs'. eapply FinC; [symmetry; exact Hs'|exact Hw|exact He|exact Hs].
+        -- exfalso. unfold setitem_slice in H. cbn [s_doc s_items] in H. rewrite zlen_map in H.
+           unfold range_from_index, range_getslice in H. rewrite Esl in H. cbn [r_start r_stop r_step] in H.
+           rewrite check_detachable_pass in H by assumption.
+           destruct (match map item_of cs with [] => Ok None | it0 :: _ => st_get_prev (fst it0) (lay pre pht cs post) end);
+             [|discriminate].
+           replace (k =? 1) with false in H by lia. rewrite Erl in H. discriminate.
+    + exfalso. unfold setitem_slice in H. cbn [s_doc s_items] in H. rewrite zlen_map in H.
+      unfold range_from_index, range_getslice in H. rewrite Esl in H. discriminate.
+  - destruct (range_from_index ix (zlen cs)) as [r|e] eqn:Er.
+    + destruct (Z.eq_dec (r_step r) 1) as [Hs1|Hs1].
+      * destruct (delitem_layout ph seps sepsb Hseps Hsepsb pre pht cs post ix fr r Hwf Hf Er Hs1) as (A & M & B & cs' & _ & E & Hw & He & _ & Hs).
+        rewrite E in H. injection H as Hs'. eapply Fin; [symmetry; exact Hs'|exact Hw|exact He|exact Hs].
+      * destruct (delitem_ext_layout ph seps sepsb pre pht cs post ix fr r Hwf Er Hs1) as (cs' & M & E & Hw & He & Hs).
+        { destruct ix as [i|sl]; cbn in Er.
+          - destruct (norm_index (zlen cs) i); inversion Er; subst r. cbn in Hs1. congruence.
+          - unfold range_getslice in Er. destruct (slice_indices (zlen cs) sl) as [[[a b] k]|]; inversion Er. reflexivity. }
+        rewrite E in H. injection H as Hs'. eapply FinC; [symmetry; exact Hs'|exact Hw|exact He|exact Hs].
     + unfold delitem in H. cbn [s_items] in H. rewrite zlen_map, Er in H. discriminate.
   - destruct (pop ph (mkst (lay pre pht cs post) (map item_of cs)) i) as [[s1 dl] r] eqn:E.
     destruct r as [toks|e]; [|discriminate]. inversion H; subst s1.
@@ -138,6 +164,9 @@ Proof.
     eapply Fin; [exact Es|exact Hw|exact He|]. intro HS. now apply Sep_del.
   - destruct (clear_layout ph pre pht cs post Hwf) as (E & Hw & He).
     rewrite E in H. injection H as Hs'. eapply Fin; [symmetry; exact Hs'|exact Hw|exact He|intro; exact I].
+  - destruct Hf as [Hn Hb]. cbn [s_items] in Hb. rewrite zlen_map in Hb.
+    destruct (drop_many_layout ph seps sepsb pre pht cs post l Hwf Hn Hb) as (cs' & M & E & Hw & He & Hs & _).
+    rewrite E in H. injection H as Hs'. eapply FinC; [symmetry; exact Hs'|exact Hw|exact He|exact Hs].
 Qed.
 
 Lemma list_pop_of_get : forall {A} (l : list A) i x, list_get_int l i = Ok x -> exists y, list_pop l i = Ok y.
@@ -150,7 +179,7 @@ Qed.
 Theorem step_err : forall s o s' e, LayS s -> op_fresh s o -> run_op s o = (s', Err e) -> s' = s.
 Proof.
   intros [d items] o s' e (pre & pht & cs & post & Ed & Ei & Hwf) Hf H. cbn [s_doc s_items] in *. subst d items.
-  destruct o as [i v fr|v fr|vs fr|i v fr|sl vs fr|ix fr|i|]; cbn [run_op op_fresh] in *.
+  destruct o as [i v fr|v fr|vs fr|i v fr|sl vs fr|ix fr|i| |l]; cbn [run_op op_fresh] in *.
   - destruct (insert _ _ _ _ _ _ _) as [[s1 dl] r] eqn:E. inversion H; subst. eapply insert_atomic; exact E.
   - destruct (append _ _ _ _ _ _) as [[s1 dl] r] eqn:E. inversion H; subst. eapply append_atomic; exact E.
   - destruct (extend _ _ _ _ _ _) as [[s1 dl] r] eqn:E. inversion H; subst. eapply extend_atomic; exact E.
@@ -160,26 +189,47 @@ Proof.
     destruct (st_splice ts (fst it) (snd it) (lay pre pht cs post)); [|now inversion H].
     unfold list_set_int in H. unfold list_get_int in Eg.
     destruct (norm_index (zlen (map item_of cs)) i); [inversion H|discriminate].
-  - destruct Hf as [Hf Hst].
-    unfold setitem_slice in H. cbn [s_doc s_items] in H.
-    destruct (range_from_index (ISlice sl) (zlen (map item_of cs))) as [r|e0] eqn:Er; [|now inversion H].
-    destruct (check_detachable [] vs) as [[]|e0] eqn:Ec; [|now inversion H].
-    exfalso. destruct (check_detachable_nodup _ _ Ec) as [Hn _].
+  - (* every refusal of a slice assignment happens before the first store write *)
+    destruct (setitem_slice ph seps sepsb (mkst (lay pre pht cs post) (map item_of cs)) sl vs fr) as [[s1 dl] r] eqn:E0.
+    inversion H; subst s1 r. clear H. pose proof E0 as Horig.
+    unfold setitem_slice in E0. cbn [s_doc s_items] in E0. rewrite zlen_map in E0.
+    unfold range_from_index, range_getslice in E0.
+    destruct (slice_indices (zlen cs) sl) as [[[a b] k]|e0] eqn:Esl; [|now inversion E0].
+    cbn [r_start r_stop r_step] in E0.
+    destruct (check_detachable [] vs) as [[]|e0] eqn:Ec; [|now inversion E0].
+    destruct (match map item_of cs with [] => Ok None | it0 :: _ => st_get_prev (fst it0) (lay pre pht cs post) end) eqn:Esb;
+      [|now inversion E0].
+    destruct (check_detachable_nodup _ _ Ec) as [Hn _].
     pose proof (check_detachable_ok _ _ Ec) as Hd.
-    destruct (setslice_layout ph seps sepsb Hseps Hsepsb pre pht cs post sl vs fr Hwf) as (A & M & B & cs' & _ & E & _);
-      [now apply donors_ok_of_fresh|exact Hn|exact Hst|].
-    unfold setitem_slice in E. cbn [s_doc s_items] in E. rewrite Er, Ec in E. rewrite E in H. discriminate.
-  - destruct Hf as [Hb Hst].
-    destruct (range_from_index ix (zlen cs)) as [r|e0] eqn:Er.
+    pose proof (donors_ok_of_fresh _ _ _ Hf Hd) as Hdon.
+    destruct (Z.eq_dec k 1) as [->|Hk1].
     + exfalso.
-      destruct (delitem_layout ph seps sepsb Hseps Hsepsb pre pht cs post ix fr r Hwf Hb Er) as (A & M & B & cs' & _ & E & _).
-      { eapply del_index_step1; eassumption. }
-      rewrite E in H. discriminate.
+      destruct (setslice_layout ph seps sepsb Hseps Hsepsb pre pht cs post sl vs fr Hwf Hdon Hn) as (A & M & B & cs' & _ & E & _);
+        [eapply slice_step1; exact Esl|].
+      rewrite E in Horig. discriminate.
+    + replace (k =? 1) with false in E0 by lia.
+      destruct (range_len (mkrng a b k) =? zlen vs) eqn:Erl; cbn [negb] in E0; [|now inversion E0].
+      exfalso.
+      destruct (setslice_ext_layout ph seps sepsb Hseps Hsepsb pre pht cs post sl vs fr a b k Hwf Hdon Hn Esl Hk1) as (cs' & M & dl' & E & _);
+        [lia|].
+      rewrite E in Horig. discriminate.
+  - destruct (range_from_index ix (zlen cs)) as [r|e0] eqn:Er.
+    + exfalso. destruct (Z.eq_dec (r_step r) 1) as [Hs1|Hs1].
+      * destruct (delitem_layout ph seps sepsb Hseps Hsepsb pre pht cs post ix fr r Hwf Hf Er Hs1) as (A & M & B & cs' & _ & E & _).
+        rewrite E in H. discriminate.
+      * destruct (delitem_ext_layout ph seps sepsb pre pht cs post ix fr r Hwf Er Hs1) as (cs' & M & E & _).
+        { destruct ix as [i|sl]; cbn in Er.
+          - destruct (norm_index (zlen cs) i); inversion Er; subst r. cbn in Hs1. congruence.
+          - unfold range_getslice in Er. destruct (slice_indices (zlen cs) sl) as [[[a b] k]|]; inversion Er. reflexivity. }
+        rewrite E in H. discriminate.
     + unfold delitem in H. cbn [s_items] in H. rewrite zlen_map, Er in H. now inversion H.
   - destruct (pop ph (mkst (lay pre pht cs post) (map item_of cs)) i) as [[s1 dl] r] eqn:E.
     destruct r as [toks|e0]; [discriminate|]. inversion H; subst s1 e0.
     eapply pop_atomic; [exact E|]. intros x Hx. eapply list_pop_of_get. exact Hx.
   - destruct (clear _ _) as [[s1 dl] r] eqn:E. inversion H; subst. eapply clear_atomic; exact E.
+  - exfalso. destruct Hf as [Hn Hb]. cbn [s_items] in Hb. rewrite zlen_map in Hb.
+    destruct (drop_many_layout ph seps sepsb pre pht cs post l Hwf Hn Hb) as (cs' & M & E & _).
+    rewrite E in H. discriminate.
 Qed.
 
 (* histories: each call is either accepted (its values are free) or refused *)
@@ -208,39 +258,25 @@ Proof.
   - intros e Hf Hrun. eapply step_err; eassumption.
 Qed.
 
-(* ---- what FrameS means for tokens ------------------------------------------------------------------ *)
-Lemma in_flat : forall cs t, In t (flat cs) -> exists c, In c cs /\ (In t (c_gap c) \/ In t (c_body c)).
-Proof.
-  induction cs as [|c cs IH]; intros t H; [destruct H|]. rewrite flat_cons in H.
-  apply in_app_or in H. destruct H as [H|H]; [exists c; split; [now left|now left]|].
-  apply in_app_or in H. destruct H as [H|H]; [exists c; split; [now left|now right]|].
-  destruct (IH t H) as (c' & Hc & Ht). exists c'. split; [now right|exact Ht].
-Qed.
-
-Lemma in_flat_body : forall cs c t, In c cs -> In t (c_body c) -> In t (flat cs).
-Proof.
-  induction cs as [|c0 cs IH]; intros c t Hc Ht; [destruct Hc|]. rewrite flat_cons.
-  destruct Hc as [->|Hc]; apply in_or_app; right; apply in_or_app; [now left|right; eapply IH; eassumption].
-Qed.
-
+(* ---- what the frame means for tokens ---------------------------------------------------------------- *)
 Lemma gap_sep : forall cs c t, Forall cell_ok cs -> In c cs -> In t (c_gap c) -> is_sep (tkind t) = true.
 Proof.
   intros cs c t Hok Hc Ht. rewrite Forall_forall in Hok. destruct (Hok c Hc) as [_ Hg].
   unfold all_sep in Hg. rewrite forallb_forall in Hg. now apply Hg.
 Qed.
 
-(* one window; outside it the token lists are identical; inside, every token of the new document is an
-   old token of a sibling item, a separator-kind token, or a token of the new children; every token of
-   the old document that disappeared is a separator-kind token or belongs to a removed item *)
-Theorem frame_tokens : forall s s', FrameS s s' ->
-  exists X W W' Y news removed,
-    s_doc s = X ++ W ++ Y /\ s_doc s' = X ++ W' ++ Y /\
+(* one edit: one window; outside it the token lists are identical; inside, every token of the new
+   document is an old token of a sibling item, a separator-kind token, or a token of the new children;
+   every old token that disappeared is a separator-kind token or belongs to a removed item *)
+Theorem frame_tokens_edit : forall pre pht cs cs' post M news,
+  Forall cell_ok cs -> Forall cell_ok cs' -> Edit cs cs' M news ->
+  exists X W W' Y,
+    lay pre pht cs post = X ++ W ++ Y /\ lay pre pht cs' post = X ++ W' ++ Y /\
     (forall t, In t W' -> In t W \/ is_sep (tkind t) = true \/ exists b, In b news /\ In t b) /\
-    (forall t, In t W -> In t W' \/ is_sep (tkind t) = true \/ exists c, In c removed /\ In t (c_body c)).
+    (forall t, In t W -> In t W' \/ is_sep (tkind t) = true \/ exists c, In c M /\ In t (c_body c)).
 Proof.
-  intros s s' (pre & pht & cs & cs' & post & M & news & -> & Hwf & -> & Hwf' & (A & B & Nc & B' & -> & -> & En & Eb) & _).
-  destruct Hwf as (_ & _ & Hok). destruct Hwf' as (_ & _ & Hok').
-  exists (pre ++ pht :: flat A), (flat M ++ flat B), (flat Nc ++ flat B'), post, news, M. cbn [s_doc].
+  intros pre pht cs cs' post M news Hok Hok' (A & B & Nc & B' & -> & -> & En & Eb).
+  exists (pre ++ pht :: flat A), (flat M ++ flat B), (flat Nc ++ flat B'), post.
   split; [unfold lay; rewrite !flat_app; repeat rewrite <- app_assoc; reflexivity|].
   split; [unfold lay; rewrite !flat_app; repeat rewrite <- app_assoc; reflexivity|].
   apply Forall_app_inv in Hok. destruct Hok as [_ Hok]. apply Forall_app_inv in Hok. destruct Hok as [HokM HokB].
@@ -264,6 +300,65 @@ Proof.
       * left. apply in_or_app. right.
         assert (Hin : In (c_body c) (map c_body B')) by (rewrite Eb; now apply in_map).
         apply in_map_iff in Hin. destruct Hin as (c2 & E2 & Hc2). eapply in_flat_body; [exact Hc2|now rewrite E2].
+Qed.
+
+Lemma edit_flat : forall cs cs' M news, Forall cell_ok cs -> Forall cell_ok cs' -> Edit cs cs' M news ->
+  (forall t, In t (flat cs') -> In t (flat cs) \/ is_sep (tkind t) = true \/ exists b, In b news /\ In t b) /\
+  (forall t, In t (flat cs) -> In t (flat cs') \/ is_sep (tkind t) = true \/ exists c, In c M /\ In t (c_body c)).
+Proof.
+  intros cs cs' M news Hok Hok' (A & B & Nc & B' & -> & -> & En & Eb). split.
+  - intros t Ht. destruct (in_flat _ _ Ht) as (c & Hc & Hgb).
+    apply in_app_or in Hc. destruct Hc as [Hc|Hc].
+    + left. destruct Hgb as [Hg|Hb]; [eapply in_flat_gap|eapply in_flat_body]; try eassumption; apply in_or_app; now left.
+    + destruct Hgb as [Hg|Hb]; [right; left; eapply (gap_sep (A ++ Nc ++ B')); try eassumption; apply in_or_app; now right|].
+      apply in_app_or in Hc. destruct Hc as [Hc|Hc].
+      * right. right. exists (c_body c). split; [rewrite <- En; now apply in_map|exact Hb].
+      * left. assert (Hin : In (c_body c) (map c_body B)) by (rewrite <- Eb; now apply in_map).
+        apply in_map_iff in Hin. destruct Hin as (c2 & E2 & Hc2).
+        eapply (in_flat_body _ c2); [apply in_or_app; right; apply in_or_app; now right|now rewrite E2].
+  - intros t Ht. destruct (in_flat _ _ Ht) as (c & Hc & Hgb).
+    apply in_app_or in Hc. destruct Hc as [Hc|Hc].
+    + left. destruct Hgb as [Hg|Hb]; [eapply in_flat_gap|eapply in_flat_body]; try eassumption; apply in_or_app; now left.
+    + destruct Hgb as [Hg|Hb]; [right; left; eapply (gap_sep (A ++ M ++ B)); try eassumption; apply in_or_app; now right|].
+      apply in_app_or in Hc. destruct Hc as [Hc|Hc].
+      * right. right. now exists c.
+      * left. assert (Hin : In (c_body c) (map c_body B')) by (rewrite Eb; now apply in_map).
+        apply in_map_iff in Hin. destruct Hin as (c2 & E2 & Hc2).
+        eapply (in_flat_body _ c2); [apply in_or_app; right; apply in_or_app; now right|now rewrite E2].
+Qed.
+
+Lemma edits_flat : forall cs cs' M news, Edits cs cs' M news -> Forall cell_ok cs ->
+  (forall t, In t (flat cs') -> In t (flat cs) \/ is_sep (tkind t) = true \/ exists b, In b news /\ In t b) /\
+  (forall t, In t (flat cs) -> In t (flat cs') \/ is_sep (tkind t) = true \/ exists c, In c M /\ In t (c_body c)).
+Proof.
+  intros cs cs' M news H. induction H as [cs|cs cs1 cs2 M N M' N' Hok1 He _ IH]; intros Hok.
+  - split; intros t Ht; now left.
+  - destruct (edit_flat cs cs1 M N Hok Hok1 He) as [E1 E2]. destruct (IH Hok1) as [I1 I2]. split.
+    + intros t Ht. destruct (I1 t Ht) as [H1|[H1|(b & Hb & Htb)]].
+      * destruct (E1 t H1) as [H2|[H2|(b & Hb & Htb)]]; [now left|right; now left|].
+        right. right. exists b. split; [apply in_or_app; now left|exact Htb].
+      * right. now left.
+      * right. right. exists b. split; [apply in_or_app; now right|exact Htb].
+    + intros t Ht. destruct (E2 t Ht) as [H1|[H1|(c & Hc & Htc)]].
+      * destruct (I2 t H1) as [H2|[H2|(c & Hc & Htc)]]; [now left|right; now left|].
+        right. right. exists c. split; [apply in_or_app; now right|exact Htc].
+      * right. now left.
+      * right. right. exists c. split; [apply in_or_app; now left|exact Htc].
+Qed.
+
+(* any accepted call: everything before the field's placeholder and after its last item is identical;
+   inside, tokens that appear are separator-kind or the new children's, tokens that disappear are
+   separator-kind or belong to a removed item; for a single edit frame_tokens_edit gives the exact window *)
+Theorem frame_tokens : forall s s', FrameS s s' ->
+  exists X W W' Y news removed,
+    s_doc s = X ++ W ++ Y /\ s_doc s' = X ++ W' ++ Y /\
+    (forall t, In t W' -> In t W \/ is_sep (tkind t) = true \/ exists b, In b news /\ In t b) /\
+    (forall t, In t W -> In t W' \/ is_sep (tkind t) = true \/ exists c, In c removed /\ In t (c_body c)).
+Proof.
+  intros s s' (pre & pht & cs & cs' & post & M & news & -> & Hwf & -> & Hwf' & He & _).
+  destruct (edits_flat cs cs' M news He) as [F1 F2]; [apply Hwf|].
+  exists (pre ++ [pht]), (flat cs), (flat cs'), post, news, M. cbn [s_doc]. unfold lay.
+  split; [now rewrite <- app_assoc|]. split; [now rewrite <- app_assoc|]. split; assumption.
 Qed.
 
 End Hist.
